@@ -17,6 +17,7 @@ type J struct {
 	B     bool
 	Items []*J
 	Keys  []string
+	Lit   string // Kind 2: the number literal as written (e.g. "1.5"); N is used when empty
 }
 
 // Stream is a byte buffer with an explicit offset.
@@ -59,6 +60,10 @@ func render(sb *strings.Builder, j *J) {
 			sb.WriteString("false")
 		}
 	case 2:
+		if j.Lit != "" {
+			sb.WriteString(j.Lit)
+			break
+		}
 		b, _ := json.Marshal(j.N)
 		sb.Write(b)
 	case 3:
